@@ -48,7 +48,8 @@ REQUIRED = ["tree_form_checked", "table_form_checked", "file_form_checked", "ide
             "tap_sort_nodes_impl", "is_sorted_true", "is_sorted_on_inputs", "tree_root_not_at_0", "size_sweep_cases",
             "read_options_by_position", "sorted_results_edited_then_sorted_again",
             "worker_results_kept_across_another_sort",
-            "sorted_under_custom_column_names"]
+            "sorted_under_custom_column_names",
+            "sorted_again_after_results_were_overwritten"]
 FLOOR = {"quick": 1000, "thorough": 60000}
 SHARDS = {"quick": 8, "thorough": 16}
 
@@ -192,6 +193,27 @@ def _tree_form(ctx, case, spec):
                                  "sort_nodes_impl: the row index returned for one table, applied after "
                                  "another table of the same size was sorted, no longer carries the "
                                  "columns to their nodes", case)
+    # what the worker and sort_tree handed out belongs to the caller: overwritten in place (1-based
+    # numbering, a reversed index ...), then the same tree is sorted again
+    if len(out.id()) >= 2:
+        (w_ids, w_pids), w_idx = su.sort_nodes_impl((np.array(tree.id()), np.array(tree.pid())))
+        for arr_ in (w_ids, w_pids, w_idx):
+            if isinstance(arr_, np.ndarray) and arr_.flags.writeable:
+                arr_ += 1
+                arr_[::2] = arr_[::2][::-1].copy()
+        first_pid, first_tag = np.array(out.pid()), np.array(out.ndata["tag"])
+        scratch = sort_tree(tree)
+        for k_, v_ in scratch.ndata.items():
+            if v_.flags.writeable:
+                v_[...] = 0
+        redo = sort_tree(tree)
+        ctx.count("sorted_again_after_results_were_overwritten")
+        if not (np.array_equal(redo.pid(), first_pid) and np.array_equal(redo.ndata["tag"], first_tag)
+                and np.array_equal(redo.id(), np.arange(len(first_pid)))):
+            return ctx.violation("edit-leaks-to-later-result",
+                                 "sort_tree: after the caller overwrote, in place, what an earlier "
+                                 "sort of the same tree had returned, sorting it again gives another "
+                                 "result", case)
     # the sorted result lives on: it is re-rooted without sorting, or a node of a copy of it is
     # re-attached in place -- and what comes out of that is sorted again
     n = len(out.id())
